@@ -399,7 +399,11 @@ class MeshTri1(MeshSimplex, Mesh2D):
             points = np.zeros((3, 0), dtype=np.float64)
             wedges = np.zeros((6, 0), dtype=np.int32)
             diff = 0
-            for i, p in enumerate(np.sort(other.p[0])):
+            layers = np.sort(other.p[0])
+            # a layer is extruded only if it is a cell of the line mesh
+            # (which may have gaps)
+            ends = np.sort(other.p[0, other.t], axis=0)
+            for i, p in enumerate(layers):
                 points = np.hstack((
                     points,
                     np.vstack((self.p,
@@ -407,7 +411,8 @@ class MeshTri1(MeshSimplex, Mesh2D):
                 ))
                 if i == len(other.p[0]) - 1:
                     pass
-                else:
+                elif ((ends[0] == layers[i])
+                      & (ends[1] == layers[i + 1])).any():
                     wedges = np.hstack((
                         wedges,
                         np.vstack((self.t + diff,
